@@ -264,7 +264,11 @@ def find_node(program, clsname):
     return found
 
 
-def eval_shape(classes, key, posnames, kwnames, varmode=None):
+# spellings of the same call that Python's tokenizer treats alike: (keyword/value separator, argument separator, padding inside the parentheses)
+STYLES = [("=", ", ", ""), (" = ", ", ", ""), (" =", ",", ""), ("= ", ",  ", " "), ("  =  ", " , ", "  "), ("\t=\t", ",\t", "")]
+
+
+def eval_shape(classes, key, posnames, kwnames, varmode=None, style=0):
     """Returns (status, info): status in {'python-rejects','rejected','ok','fail'}; info carries failure or emitted text + bound key."""
     from Reduino.transpile.emitter import emit
     from Reduino.transpile.parser import parse
@@ -291,10 +295,11 @@ def eval_shape(classes, key, posnames, kwnames, varmode=None):
             prelude_lines.append(f"v_{name} = analog_read(A0) + {v!r}")
             return f"v_{name}"
         return render(v)
-    parts = [rv(n, values[n]) for n in posnames] + [f"{n}={rv(n, values[n])}" for n in kwnames]
-    call_args = ", ".join(parts)
+    eq, sep, pad = STYLES[style]
+    parts = [rv(n, values[n]) for n in posnames] + [f"{n}{eq}{rv(n, values[n])}" for n in kwnames]
+    call_args = pad + sep.join(parts) + pad if parts else ""
     script = build_script(owner, method, call_args, spec, "\n".join(prelude_lines))
-    case = {"owner": owner, "method": method, "pos": posnames, "kw": kwnames, "var": sorted(k for k, v in varmode.items() if v), "script": script}
+    case = {"owner": owner, "method": method, "pos": posnames, "kw": kwnames, "var": sorted(k for k, v in varmode.items() if v), "script": script, "style": style}
     try:
         prog = parse(script)
         text = emit(prog)
@@ -361,8 +366,14 @@ def run_shard(name, seed, tier, **kw):
         key = tuple(kw["key"])
         sig, _ = signature_of(classes, *key)
         groups = {}
-        for posnames, kwnames in shapes_for(sig, SPECS[key]["values"]):
-            st_, info = eval_shape(classes, key, posnames, kwnames)
+        work = []
+        for i, (posnames, kwnames) in enumerate(shapes_for(sig, SPECS[key]["values"])):
+            styles = range(len(STYLES)) if tier != "quick" else ([0, 1 + i % (len(STYLES) - 1)] if (posnames or kwnames) else [0])
+            work += [(posnames, kwnames, sty) for sty in styles]
+        for posnames, kwnames, sty in work:
+            st_, info = eval_shape(classes, key, posnames, kwnames, style=sty)
+            if sty:
+                r.count("restyled_call")
             if st_ == "python-rejects":
                 r.count("python_rejects")
                 continue
@@ -405,7 +416,7 @@ def run_shard(name, seed, tier, **kw):
         varmode = {n: data.draw(st.booleans()) for n in numeric}
         if key in (("LCD", None), ("Led", "flash_pattern"), ("LCD", "glyph")):
             varmode = {}
-        st_, info = eval_shape(classes, key, posnames, kwnames, varmode)
+        st_, info = eval_shape(classes, key, posnames, kwnames, varmode, style=data.draw(st.integers(0, len(STYLES) - 1)))
         if st_ == "python-rejects":
             return
         case = info["case"]
@@ -446,5 +457,5 @@ def replay(case):
                      "expected": "byte-identical C++", "observed": _first_diff(ta, tb)}]
         return []
     varmode = {n: True for n in case.get("var", [])}
-    st_, info = eval_shape(classes, (case["owner"], case["method"]), case["pos"], case["kw"], varmode)
+    st_, info = eval_shape(classes, (case["owner"], case["method"]), case["pos"], case["kw"], varmode, style=case.get("style", 0))
     return [info] if st_ == "fail" else []
